@@ -458,7 +458,8 @@ def lex_cases(inputs, mode, proj="full"):
     with ThreadPoolExecutor(max_workers=2) as ex:
         fg = ex.submit(_run_out, [HARNESS, "lex-cases", mode, proj], inp)
         fm = ex.submit(_run_out, [DRIVER, "lex-cases", mode, proj], inp)
-        return fg.result(), fm.result()
+        g = [l for l in fg.result() if not l.startswith("FAIL ")]   # a watchdog line of the harness; the TIMEOUT verdict line stays
+        return g, fm.result()
 
 
 def lex_prop(oracle, inputs):
